@@ -88,6 +88,9 @@ func verifyFromTx(native *native.NativeService, proof, extra []byte, fromChainID
 	if err != nil {
 		return nil, fmt.Errorf("verifyFromTx, GetCanonicalHeader height:%d, error:%s", height, err)
 	}
+	if headerWithSum == nil {
+		return nil, fmt.Errorf("verifyFromTx, GetCanonicalHeader height:%d, error:no canonical header at this height", height)
+	}
 
 	bytomProof := new(Proof)
 	err = json.Unmarshal(proof, bytomProof)
